@@ -2,7 +2,7 @@
    Tp/*.v and followed by Print Assumptions.
    The model is the transcription of the tree WITH repo_patches/C08-remove-segment-boundaries.diff
    (tp_fixed = true); tp_fixed = false is the pinned tree and is used only by C08_remove_refuted. *)
-From Icv Require Import Base.Tac Tp.TpModel Tp.TpProofs Tp.TpObs Tp.TpOracleProofs Tp.TpCal Tp.TpCivil Tp.TpCalObs Tp.TpCalProofs Tp.TpDst Tp.TpTab Tp.TpNth.
+From Icv Require Import Base.Tac Tp.TpModel Tp.TpProofs Tp.TpObs Tp.TpOracleProofs Tp.TpCal Tp.TpCivil Tp.TpCalObs Tp.TpCalProofs Tp.TpDst Tp.TpTab Tp.TpNth Tp.TpNorm.
 Local Open Scope Z_scope.
 
 (* ---------------- M1: interval algebra, all segment lists, all instants ---------------- *)
@@ -355,6 +355,34 @@ Proof.
     |exact (tp_find_nth_weekday_loop_backward wd n y m0 fuel Hwd H1 H2)].
 Qed.
 Print Assumptions C08_nth_weekday_loop.
+
+(* ... also with mktime's field normalisation in every iteration, as the code runs it (tp_norm_day = the civil day mktime
+   leaves in the struct tm): across transitions too, as long as mktime keeps the civil day of the at most 7 |n| local
+   midnights of the search (it does whenever they exist exactly once: C08_mktime_keeps_day) *)
+Theorem C08_nth_weekday_mktime : forall off mk wd n y m0,
+  0 <= wd <= 6 -> n <> 0 ->
+  let first := tp_days_from_civil y (m0 + 1) 1 in
+  let last := tp_days_from_civil y (m0 + 2) 1 - 1 in
+  (forall d, (if 0 <? n then first <= d < first + 7 * n else last - 7 * (- n) < d <= last) -> tp_norm_day off mk d = d) ->
+  tp_find_nth_weekday_loop_mk off mk (Z.to_nat (7 * Z.abs n)) wd n y m0 = Some (tp_find_nth_weekday wd n y m0).
+Proof. exact tp_find_nth_weekday_mk. Qed.
+Print Assumptions C08_nth_weekday_mktime.
+
+Theorem C08_mktime_keeps_day : forall off mk d, tp_good off mk (d * 86400) -> tp_norm_day off mk d = d.
+Proof. exact tp_norm_day_good. Qed.
+Print Assumptions C08_mktime_keeps_day.
+
+(* the day loop of ScriptFunc as the code runs it - advance_to_next_day lets mktime rewrite the reference in every step,
+   form lb also the first day - produces exactly the segments of the model's civil-day loop, 23 h / 25 h days included *)
+Theorem C08_day_loop_mktime : forall off mk rnd lb,
+  (forall t, -86400 < off t < 86400) ->
+  (forall s1 s2, s1 < s2 -> off (s1 - 1) <> off s1 -> off (s2 - 1) <> off s2 -> s1 + 172800 <= s2) ->
+  forall ranges b e, b <= e ->
+  tp_good off mk (tp_local_day off b * 86400) ->
+  (forall d, tp_first_day off lb b <= d <= tp_local_day off e + 1 -> tp_good off mk (d * 86400)) ->
+  tp_script_func_norm off mk rnd lb ranges b e = tp_script_func off mk rnd lb ranges b e.
+Proof. exact tp_script_func_norm_eq. Qed.
+Print Assumptions C08_day_loop_mktime.
 
 (* known finding nth-weekday-zero-hang: for n = 0 ("monday 0") the loop returns nothing for ANY fuel *)
 Theorem C08_nth_zero_refuted : forall fuel wd y m0, tp_find_nth_weekday_loop fuel wd 0 y m0 = None.
